@@ -426,3 +426,69 @@ def rule_probe_tag(ctx):
                 ctx.holds("PROBETAG", key, f.where(nn[4]), "probes and records %s" % (int_name(p[3][1]) or t), nontrivial=True)
     ctx.floor("PROBETAG", 2, n, "(existence probes whose branch records a tag)")
     return n
+
+
+def _axis_refs(e, arr):
+    """constant indices with which array `arr` is subscripted inside e"""
+    from .facts import is_int, int_val, base_var
+    out = set()
+    for y in walk(e, True):
+        if y[0] == "idx" and base_var(y[1]) == arr and is_int(y[2]):
+            out.add(int_val(y[2]))
+    return out
+
+
+def rule_axis_stride(ctx):
+    """AXISUSE (C09): region and stride addressing of images walks two nested loops, one per axis, each bounded by `count[axis]`.
+    An offset that is advanced once per iteration of the loop over axis A moves along A, so a stride factor in that advance
+    must be `stride[A]` (directly or through a local computed from it).  An advance of the row loop that uses the column
+    stride reads or writes the wrong rows whenever the two strides differ."""
+    from .codec import ast_walk
+    from .facts import is_int, int_val, base_var
+    prog = ctx.prog
+    n = 0
+    for fn in ("GRreadimage", "GRwriteimage"):
+        f = prog.func(fn)
+        if f is None:
+            ctx.unrecognised("AXISUSE", "AXISUSE:%s" % fn, "-", "%s not found" % fn)
+            continue
+        # locals computed from stride[k]
+        dep = {}
+        for _b, _i, _s, x in f.nodes(True):
+            if x[0] == "asg" and x[1] == "=" and kind(strip(x[2])) == "var":
+                r = _axis_refs(x[3], "stride")
+                if r:
+                    dep.setdefault(strip(x[2])[1], set()).update(r)
+        loops = []
+
+        def vis(nn, st):
+            if nn[0] == "for" and nn[2] is not None:
+                ax = _axis_refs(nn[2], "count")
+                if len(ax) == 1:
+                    loops.append((nn, next(iter(ax))))
+            return True
+        ast_walk(f.raw.get("ast"), vis)
+        for k, (lp, ax) in enumerate(loops):
+            body = lp[4]
+            stmts = body[1] if body[0] == "block" else [body]
+            for st_ in stmts:
+                if st_[0] != "s":
+                    continue
+                e = strip(st_[1])
+                if kind(e) != "asg" or e[1] != "+=":
+                    continue
+                used = set(_axis_refs(e[3], "stride"))
+                for y in walk(e[3], True):
+                    if y[0] == "var" and y[1] in dep:
+                        used |= dep[y[1]]
+                if not used:
+                    continue
+                n += 1
+                key = "AXISUSE:%s:%s#%d" % (fn, base_var(e[2]) or "?", k + 1)
+                if used == {ax}:
+                    ctx.holds("AXISUSE", key, f.where(e[4]), "advance per iteration over count[%d] uses stride[%d]" % (ax, ax), nontrivial=True)
+                else:
+                    ctx.violated("AXISUSE", key, f.where(e[4]), "`%s` is executed once per iteration of the loop over count[%d] but its stride factor comes from stride[%s]: "
+                                 "with different strides per axis the wrong rows/columns are addressed" % (render(e)[:70], ax, ",".join(str(u) for u in sorted(used))))
+    ctx.floor("AXISUSE", 3, n, "(stride-dependent advances in the axis loops of GRreadimage/GRwriteimage)")
+    return n
